@@ -1,3 +1,404 @@
-import CGV.Model.ReadCG
+/-
+  C05 — the multiplication operator is shorthand for writing the unit out.
+
+  Proved at the string level for node multipliers on chains of any length: a node followed by
+  `|digits` reads exactly — same numbering, names, annotation defaults, bond orders — like the node
+  written out that many times (first copy with the incoming bond order, further copies joined by single
+  bonds, the bond symbol after the number ordering the bond to what follows).
+  Branch multipliers: the open findings R4, R6a–c are pinned below by kernel-evaluated witnesses on
+  the faithful model (shorthand ≠ longhand); outside those classes the claim is validated by the
+  correspondence + metamorphic oracle (partial).
+-/
+import CGV.Props.C04
 namespace CGV.C05
+open CGV Gen C04
+
+def MItemOk (it : MItem) : Prop :=
+  NameOk it.name ∧ it.order ≤ 4 ∧ ∀ m, it.mult = some m → pyIsDigit m = true ∧ 0 < digitsVal m
+
+def MultOk (m : Option Str) : Prop := ∀ d, m = some d → pyIsDigit d = true ∧ 0 < digitsVal d
+
+/-- tokens of the tail of a chain with multipliers; `p` = the character before the tail -/
+def toksTailM : Char → List MItem → List (Char × Str × Str)
+  | _, [] => []
+  | p, it :: its =>
+    ((symText it.order).getLast?.getD p, it.name, multText it.mult ++ renderTailM its) ::
+      toksTailM ((multText it.mult).getLast?.getD ']') its
+
+theorem multText_no_open (m : Option Str) (h : MultOk m) : ∀ c ∈ multText m, c ≠ '[' := by
+  cases m with
+  | none => simp [multText]
+  | some d =>
+    intro c hc
+    simp only [multText, List.mem_cons] at hc
+    rcases hc with rfl | hc
+    · decide
+    · have hd := (h d rfl).1
+      simp only [pyIsDigit, Bool.and_eq_true, List.all_eq_true] at hd
+      intro e; subst e; have := hd.2 _ hc; revert this; decide
+
+theorem renderTailM_length (it : MItem) (its : List MItem) :
+    (renderTailM (it :: its)).length =
+      (symText it.order).length + (it.name.length + 3) + (multText it.mult).length + (renderTailM its).length := by
+  simp [renderTailM, nodeText_length]; omega
+
+theorem matches_tailM (last : Char) : ∀ (its : List MItem) (p : Char) (fuel : Nat),
+    (∀ it ∈ its, MItemOk it) → (renderTailM its).length ≤ fuel →
+    matchesAux last fuel p (renderTailM its) = toksTailM p its
+  | [], p, fuel, _, hf => by
+    obtain ⟨f, rfl⟩ : ∃ f, fuel = f + 1 := ⟨fuel - 1, by simp [renderTailM] at hf; omega⟩
+    simp only [renderTailM, toksTailM]
+    rw [matchesAux_other last p '}' f [] (by decide), matchesAux_nil]
+  | it :: its, p, fuel, hok, hf => by
+    have hit := hok it List.mem_cons_self
+    have hrest : ∀ x ∈ its, MItemOk x := fun x hx => hok x (List.mem_cons_of_mem _ hx)
+    have hname := hit.1.2
+    have hmo : MultOk it.mult := hit.2.2
+    rw [renderTailM_length] at hf
+    -- after the node: skip the multiplier text, then the tail
+    have after : ∀ (f : Nat) (q : Char), (multText it.mult).length + (renderTailM its).length ≤ f →
+        matchesAux last f q (multText it.mult ++ renderTailM its) =
+          toksTailM ((multText it.mult).getLast?.getD q) its := by
+      intro f q hfq
+      obtain ⟨f', rfl⟩ : ∃ f', f = f' + (multText it.mult).length := ⟨f - (multText it.mult).length, by omega⟩
+      rw [matchesAux_skip last (multText it.mult) q f' (renderTailM its) (multText_no_open it.mult hmo)]
+      exact matches_tailM last its _ f' hrest (by omega)
+    rcases symText_cases it.order hit.2.1 with ⟨_, hs⟩ | ⟨_, s, hs, hlook⟩
+    · rw [hs] at hf
+      obtain ⟨f, rfl⟩ : ∃ f, fuel = f + 1 := ⟨fuel - 1, by simp at hf; omega⟩
+      show matchesAux last (f + 1) p (symText it.order ++ nodeText it.name ++ multText it.mult ++ renderTailM its) = _
+      rw [hs, List.nil_append, List.append_assoc, matchesAux_nodeText last p f it.name _ hname]
+      rw [after f ']' (by simp at hf; omega)]
+      simp [toksTailM, hs]
+    · obtain ⟨_, _, _, _, _, hsb, _⟩ := sym_facts s it.order hlook
+      rw [hs] at hf
+      obtain ⟨f, rfl⟩ : ∃ f, fuel = f + 2 := ⟨fuel - 2, by simp at hf; omega⟩
+      show matchesAux last (f + 2) p (symText it.order ++ nodeText it.name ++ multText it.mult ++ renderTailM its) = _
+      rw [hs, List.append_assoc, List.append_assoc, List.singleton_append]
+      rw [show f + 2 = (f + 1) + 1 from rfl, matchesAux_other last p s (f + 1) _ hsb]
+      rw [matchesAux_nodeText last s f it.name _ hname]
+      rw [after f ']' (by simp at hf; omega)]
+      simp [toksTailM, hs]
+
+/-! ### graphs -/
+
+theorem copies_ones (name : Str) : ∀ (k : Nat) (g : CGGraph) (prev cur : Nat),
+    copiesGraph g (defaultAttrs name) (some prev) (some defaultBondOrder) cur k =
+      pathGraphAux g prev cur (List.replicate k ⟨name, 1⟩)
+  | 0, _, _, _ => rfl
+  | k + 1, g, prev, cur => by
+    simp only [copiesGraph, List.replicate_succ, pathGraphAux]
+    exact copies_ones name k _ cur (cur + 1)
+
+theorem copies_path (name : Str) (o : Nat) (m : Option Str) (hpos : 0 < copies m) (g : CGGraph) (prev cur : Nat) :
+    copiesGraph g (defaultAttrs name) (some prev) (some o) cur (copies m) =
+      pathGraphAux g prev cur (expandItem name o m) := by
+  obtain ⟨k, hk⟩ : ∃ k, copies m = k + 1 := ⟨copies m - 1, by omega⟩
+  simp only [expandItem, hk, copiesGraph, pathGraphAux, Nat.add_sub_cancel]
+  exact copies_ones name k _ cur (cur + 1)
+
+theorem pathGraphAux_append : ∀ (l1 l2 : List LItem) (g : CGGraph) (prev k : Nat), l1 ≠ [] →
+    pathGraphAux g prev k (l1 ++ l2) = pathGraphAux (pathGraphAux g prev k l1) (k + l1.length - 1) (k + l1.length) l2
+  | [], _, _, _, _, h => absurd rfl h
+  | [x], l2, g, prev, k, _ => by simp [pathGraphAux]
+  | x :: y :: l1, l2, g, prev, k, _ => by
+    have ih := pathGraphAux_append (y :: l1) l2 ((g.addNode k (defaultAttrs x.name)).addEdge prev k (some x.order)) k (k + 1) (by simp)
+    simp only [List.cons_append, pathGraphAux] at ih ⊢
+    rw [ih]
+    simp only [List.length_cons]
+    have e1 : k + 1 + (l1.length + 1) - 1 = k + (l1.length + 1 + 1) - 1 := by omega
+    have e2 : k + 1 + (l1.length + 1) = k + (l1.length + 1 + 1) := by omega
+    rw [e1, e2]
+
+theorem expandItem_length (name : Str) (o : Nat) (m : Option Str) (hpos : 0 < copies m) :
+    (expandItem name o m).length = copies m := by
+  simp [expandItem]; omega
+
+/-! ### the state machine -/
+
+def nextOrderM : List MItem → Nat
+  | [] => 1
+  | it :: _ => it.order
+
+theorem gap_tailM (its : List MItem) (hok : ∀ it ∈ its, MItemOk it) : PlainGap (renderTailM its) (nextOrderM its) := by
+  cases its with
+  | nil => exact PlainGap.close []
+  | cons it its =>
+    have hit := hok it List.mem_cons_self
+    show PlainGap (symText it.order ++ nodeText it.name ++ multText it.mult ++ renderTailM its) it.order
+    rcases symText_cases it.order hit.2.1 with ⟨h1, hs⟩ | ⟨_, s, hs, hlook⟩
+    · rw [hs, h1]; simp only [List.nil_append, nodeText, List.cons_append]; exact PlainGap.node _
+    · rw [hs]; simp only [List.singleton_append, nodeText, List.cons_append, List.append_assoc]
+      exact PlainGap.sym s it.order _ hlook
+
+theorem multText_no_close (m : Option Str) (h : MultOk m) : ∀ c ∈ multText m, c ≠ ')' := by
+  cases m with
+  | none => simp [multText]
+  | some d =>
+    intro c hc
+    simp only [multText, List.mem_cons] at hc
+    rcases hc with rfl | hc
+    · decide
+    · have hd := (h d rfl).1
+      simp only [pyIsDigit, Bool.and_eq_true, List.all_eq_true] at hd
+      intro e; subst e; have := hd.2 _ hc; revert this; decide
+
+theorem tail_no_closeM (its : List MItem) (hok : ∀ it ∈ its, MItemOk it) : ∀ c ∈ renderTailM its, c ≠ ')' := by
+  induction its with
+  | nil => intro c hc; simp [renderTailM] at hc; subst hc; decide
+  | cons it its ih =>
+    have hit := hok it List.mem_cons_self
+    intro c hc
+    simp only [renderTailM, List.mem_append] at hc
+    rcases hc with ((hc | hc) | hc) | hc
+    · rcases symText_cases it.order hit.2.1 with ⟨_, hs⟩ | ⟨_, s, hs, hlook⟩
+      · rw [hs] at hc; simp at hc
+      · rw [hs] at hc; simp only [List.mem_singleton] at hc; subst hc
+        exact (sym_facts c it.order hlook).2.2.2.1
+    · simp only [nodeText, List.mem_cons, List.mem_append, List.mem_singleton] at hc
+      rcases hc with rfl | rfl | hc | hc
+      · decide
+      · decide
+      · exact (nameChar_facts c (List.all_eq_true.mp hit.1.2 c hc)).2.2.2.1
+      · rcases hc with rfl | hc
+        · decide
+        · simp at hc
+    · exact multText_no_close it.mult hit.2.2 c hc
+    · exact ih (fun x hx => hok x (List.mem_cons_of_mem _ hx)) c hc
+
+theorem multLast_ne (m : Option Str) (h : MultOk m) : (multText m).getLast?.getD ']' ≠ '(' := by
+  cases m with
+  | none => simp [multText]
+  | some d =>
+    have hd := (h d rfl).1
+    simp only [pyIsDigit, Bool.and_eq_true, List.all_eq_true] at hd
+    have hne : d ≠ [] := by intro e; rw [e] at hd; simp at hd
+    have hne' : ('|' :: d) ≠ [] := by simp
+    simp only [multText]
+    rw [List.getLast?_eq_some_getLast hne', Option.getD_some]
+    have : ('|' :: d).getLast hne' = d.getLast hne := List.getLast_cons hne
+    rw [this]
+    intro e
+    have := hd.2 _ (List.getLast_mem hne)
+    rw [e] at this; revert this; decide
+
+/-- one node of the chain — plain or multiplied — seen from a state with a previous node -/
+theorem step_item (st : RState) (pre : Char) (it : MItem) (its : List MItem) (prev : Nat)
+    (hit : MItemOk it) (hok : ∀ x ∈ its, MItemOk x) (hpre : pre ≠ '(') (hbr : st.branching = false)
+    (hprev : st.prev = some prev) (hpbo : st.pbo = some it.order) :
+    ∃ st', stepNode st (pre, it.name, multText it.mult ++ renderTailM its) = .ok st' ∧
+      st'.g = pathGraphAux st.g prev st.current (expandItem it.name it.order it.mult) ∧
+      st'.current = st.current + copies it.mult ∧ st'.prev = some (st.current + copies it.mult - 1) ∧
+      st'.pbo = some (nextOrderM its) ∧ st'.branching = false ∧ st'.cycle = st.cycle := by
+  cases hm : it.mult with
+  | none =>
+    obtain ⟨r, hstep⟩ := stepNode_plain st pre it.name (renderTailM its) (nextOrderM its) (defaultAttrs it.name) hpre
+      (gap_tailM its hok) (parse_name it.name hit.1) hbr (tail_no_closeM its hok)
+    let st1 : RState :=
+      { st with g := (match st.prev with
+                      | some p => (st.g.addNode st.current (defaultAttrs it.name)).addEdge p st.current st.pbo
+                      | none => st.g.addNode st.current (defaultAttrs it.name)),
+                current := st.current + 1, prev := some st.current, pbo := some (nextOrderM its),
+                attrs := some (defaultAttrs it.name), rdx := some r }
+    have hs1 : stepNode st (pre, it.name, multText none ++ renderTailM its) = .ok st1 := by
+      simp only [multText, List.nil_append]
+      exact hstep
+    refine ⟨st1, hs1, ?_, rfl, rfl, rfl, hbr, rfl⟩
+    show (match st.prev with
+      | some p => (st.g.addNode st.current (defaultAttrs it.name)).addEdge p st.current st.pbo
+      | none => st.g.addNode st.current (defaultAttrs it.name)) = _
+    simp [hprev, hpbo, expandItem, copies, pathGraphAux]
+  | some d =>
+    obtain ⟨hd, hpos⟩ := hit.2.2 d hm
+    obtain ⟨st', h1, h2, h3, h4, h5, h6, h7⟩ := stepNode_mult st pre it.name d (renderTailM its) (nextOrderM its)
+      (defaultAttrs it.name) hpre hd (gap_tailM its hok) (parse_name it.name hit.1) hbr (tail_no_closeM its hok) hpos
+    refine ⟨st', by simpa [multText] using h1, ?_, h3, h4, h5, h6, h7⟩
+    rw [h2, hprev, hpbo]
+    exact copies_path it.name it.order (some d) hpos st.g prev st.current
+
+theorem fold_tailM : ∀ (its : List MItem) (p : Char) (st : RState) (prev : Nat),
+    (∀ it ∈ its, MItemOk it) → p ≠ '(' → st.branching = false → st.prev = some prev → st.pbo = some (nextOrderM its) →
+    ∃ st', (toksTailM p its).foldlM stepNode st = .ok st' ∧
+      st'.g = pathGraphAux st.g prev st.current (expandM its) ∧ st'.cycle = st.cycle
+  | [], _, st, _, _, _, _, _, _ => ⟨st, rfl, rfl, rfl⟩
+  | it :: its, p, st, prev, hok, hp, hbr, hprev, hpbo => by
+    have hit := hok it List.mem_cons_self
+    have hrest : ∀ x ∈ its, MItemOk x := fun x hx => hok x (List.mem_cons_of_mem _ hx)
+    have hpre : (symText it.order).getLast?.getD p ≠ '(' := toksTail_pre p hp ⟨it.name, it.order⟩ ⟨hit.1, hit.2.1⟩
+    obtain ⟨st1, h1, h2, h3, h4, h5, h6, h7⟩ := step_item st _ it its prev hit hrest hpre hbr hprev hpbo
+    obtain ⟨st', g1, g2, g3⟩ := fold_tailM its ((multText it.mult).getLast?.getD ']') st1 (st.current + copies it.mult - 1)
+      hrest (multLast_ne it.mult hit.2.2) h6 h4 h5
+    refine ⟨st', ?_, ?_, g3.trans h7⟩
+    · simp only [toksTailM, List.foldlM_cons, h1, bind, Except.bind]; exact g1
+    · have hpos : 0 < copies it.mult := by
+        cases hm : it.mult with
+        | none => simp [copies]
+        | some d => simpa [copies] using (hit.2.2 d hm).2
+      have hne : expandItem it.name it.order it.mult ≠ [] := by simp [expandItem]
+      rw [g2, h2, h3]
+      simp only [expandM, List.flatMap_cons]
+      rw [pathGraphAux_append _ _ st.g prev st.current hne, expandItem_length _ _ _ hpos]
+
+/-! ### whole strings -/
+
+theorem renderTailM_getLast (its : List MItem) : (renderTailM its).getLast? = some '}' := by
+  induction its with
+  | nil => rfl
+  | cons it its ih =>
+    show (symText it.order ++ nodeText it.name ++ multText it.mult ++ renderTailM its).getLast? = _
+    rw [List.getLast?_append, ih]; rfl
+
+theorem matches_chainM (first : Str) (fm : Option Str) (its : List MItem) (hfirst : NameOk first) (hfm : MultOk fm)
+    (hok : ∀ it ∈ its, MItemOk it) :
+    matches' (renderChainM first fm its) =
+      ('{', first, multText fm ++ renderTailM its) :: toksTailM ((multText fm).getLast?.getD ']') its := by
+  unfold matches' renderChainM
+  have hlast : (('{' :: (nodeText first ++ multText fm ++ renderTailM its)).getLast?.getD ' ') = '}' := by
+    have h1 : ('{' :: (nodeText first ++ multText fm ++ renderTailM its)) =
+        (['{'] ++ nodeText first ++ multText fm) ++ renderTailM its := by simp
+    rw [h1, List.getLast?_append, renderTailM_getLast]; rfl
+  rw [hlast]
+  have hlen : ('{' :: (nodeText first ++ multText fm ++ renderTailM its)).length + 1 =
+      (((first.length + 3 + (renderTailM its).length) + (multText fm).length) + 1) + 1 := by
+    simp only [List.length_cons, List.length_append, nodeText_length]; omega
+  rw [hlen, matchesAux_other '}' '}' '{' _ _ (by decide), List.append_assoc]
+  rw [matchesAux_nodeText '}' '{' _ first _ hfirst.2]
+  rw [matchesAux_skip '}' (multText fm) ']' _ (renderTailM its) (multText_no_open fm hfm)]
+  rw [matches_tailM '}' its _ _ hok (by omega)]
+
+theorem multText_ok (m : Option Str) (h : MultOk m) : ∀ c ∈ multText m, okChar c = true := by
+  cases m with
+  | none => simp [multText]
+  | some d =>
+    intro c hc
+    simp only [multText, List.mem_cons] at hc
+    rcases hc with rfl | hc
+    · decide
+    · have hd := (h d rfl).1
+      simp only [pyIsDigit, Bool.and_eq_true, List.all_eq_true] at hd
+      have hdig := hd.2 c hc
+      have : nameChar c = true := by simp [nameChar, Char.isAlphanum, hdig]
+      exact nameChar_ok c this
+
+theorem renderTailM_ok (its : List MItem) (hok : ∀ it ∈ its, MItemOk it) : ∀ c ∈ renderTailM its, okChar c = true := by
+  induction its with
+  | nil => intro c hc; simp [renderTailM] at hc; subst hc; decide
+  | cons it its ih =>
+    have hit := hok it List.mem_cons_self
+    intro c hc
+    simp only [renderTailM, List.mem_append] at hc
+    rcases hc with ((hc | hc) | hc) | hc
+    · exact symText_ok it.order hit.2.1 c hc
+    · exact nodeText_ok it.name hit.1.2 c hc
+    · exact multText_ok it.mult hit.2.2 c hc
+    · exact ih (fun x hx => hok x (List.mem_cons_of_mem _ hx)) c hc
+
+/-- the written-out chain of a shorthand chain -/
+def longhand (first : Str) (fm : Option Str) (its : List MItem) : List LItem :=
+  List.replicate (copies fm - 1) ⟨first, 1⟩ ++ expandM its
+
+/-- C05 (node multipliers, chains of any length): the shorthand reads to exactly the graph of the
+    written-out string — identical numbering, names, default annotations and bond orders, including
+    the order between copies (single) and the order to what follows (the symbol after the number) -/
+theorem C05_node_graph (first : Str) (fm : Option Str) (its : List MItem) (hfirst : NameOk first) (hfm : MultOk fm)
+    (hok : ∀ it ∈ its, MItemOk it) :
+    readCG (renderChainM first fm its) = .ok (pathGraph first (longhand first fm its)) := by
+  have hsup : ((renderChainM first fm its).any fun c => c == '\n' || decide (c.toNat > 127)) = false := by
+    rw [List.any_eq_false]
+    intro c hc
+    have : okChar c = true := by
+      simp only [renderChainM, List.mem_cons, List.mem_append] at hc
+      rcases hc with rfl | (hc | hc) | hc
+      · decide
+      · exact nodeText_ok first hfirst.2 c hc
+      · exact multText_ok fm hfm c hc
+      · exact renderTailM_ok its hok c hc
+    simpa [okChar] using this
+  have hposf : 0 < copies fm := by
+    cases hm : fm with
+    | none => simp [copies]
+    | some d => simpa [copies] using (hfm d hm).2
+  unfold readCG
+  simp only [hsup, Bool.false_eq_true, if_false]
+  rw [matches_chainM first fm its hfirst hfm hok]
+  -- the first node: from the empty state
+  have first_step : ∃ st1, stepNode {} ('{', first, multText fm ++ renderTailM its) = .ok st1 ∧
+      st1.g = pathGraphAux (({} : CGGraph).addNode 0 (defaultAttrs first)) 0 1 (List.replicate (copies fm - 1) ⟨first, 1⟩) ∧
+      st1.current = copies fm ∧ st1.prev = some (copies fm - 1) ∧ st1.pbo = some (nextOrderM its) ∧
+      st1.branching = false ∧ st1.cycle = [] := by
+    cases hm : fm with
+    | none =>
+      obtain ⟨r, hstep⟩ := stepNode_plain {} '{' first (renderTailM its) (nextOrderM its) (defaultAttrs first) (by decide)
+        (gap_tailM its hok) (parse_name first hfirst) rfl (tail_no_closeM its hok)
+      exact ⟨_, by simpa [multText] using hstep, rfl, rfl, rfl, rfl, rfl, rfl⟩
+    | some d =>
+      obtain ⟨hd, hpos⟩ := hfm d hm
+      obtain ⟨st1, h1, h2, h3, h4, h5, h6, h7⟩ := stepNode_mult {} '{' first d (renderTailM its) (nextOrderM its)
+        (defaultAttrs first) (by decide) hd (gap_tailM its hok) (parse_name first hfirst) rfl (tail_no_closeM its hok) hpos
+      refine ⟨st1, by simpa [multText] using h1, ?_, by simpa [copies] using h3, by simpa [copies] using h4, h5, h6, h7⟩
+      rw [h2]
+      obtain ⟨k, hk⟩ : ∃ k, digitsVal d = k + 1 := ⟨digitsVal d - 1, by omega⟩
+      simp only [copies, hk, copiesGraph, Nat.add_sub_cancel]
+      exact copies_ones first k _ 0 1
+  obtain ⟨st1, h1, h2, h3, h4, h5, h6, h7⟩ := first_step
+  simp only [List.foldlM_cons, h1, bind, Except.bind]
+  obtain ⟨st', g1, g2, g3⟩ := fold_tailM its ((multText fm).getLast?.getD ']') st1 (copies fm - 1) hok
+    (multLast_ne fm hfm) h6 h4 h5
+  rw [g1]
+  have hc : st'.cycle.isEmpty = true := by rw [g3, h7]; rfl
+  simp only [hc, Bool.not_true, Bool.false_eq_true, if_false, pure, Except.pure, g2, h2, h3, pathGraph, longhand]
+  congr 1
+  by_cases hk : copies fm - 1 = 0
+  · rw [hk]; simp only [List.replicate_zero, List.nil_append, pathGraphAux]
+    have : copies fm = 1 := by omega
+    rw [this]
+  · have hne : List.replicate (copies fm - 1) (⟨first, 1⟩ : LItem) ≠ [] := by
+      intro e; have := congrArg List.length e; simp at this; exact hk this
+    rw [pathGraphAux_append _ _ _ 0 1 hne]
+    simp only [List.length_replicate]
+    have e1 : 1 + (copies fm - 1) - 1 = copies fm - 1 := by omega
+    have e2 : 1 + (copies fm - 1) = copies fm := by omega
+    rw [e1, e2]
+
+theorem longhand_ok (first : Str) (fm : Option Str) (its : List MItem) (hfirst : NameOk first)
+    (hok : ∀ it ∈ its, MItemOk it) : ∀ it ∈ longhand first fm its, ItemOk it := by
+  intro it hit
+  simp only [longhand, List.mem_append, List.mem_replicate, expandM, List.mem_flatMap, expandItem, List.mem_cons] at hit
+  rcases hit with ⟨_, rfl⟩ | ⟨m, hm, h⟩
+  · exact ⟨hfirst, by show (1 : Nat) ≤ 4; decide⟩
+  · have := hok m hm
+    rcases h with rfl | ⟨_, rfl⟩
+    · exact ⟨this.1, this.2.1⟩
+    · exact ⟨this.1, by show (1 : Nat) ≤ 4; decide⟩
+
+/-- C05 as stated: reading the shorthand gives exactly what reading the written-out string gives -/
+theorem C05_node (first : Str) (fm : Option Str) (its : List MItem) (hfirst : NameOk first) (hfm : MultOk fm)
+    (hok : ∀ it ∈ its, MItemOk it) :
+    readCG (renderChainM first fm its) = readCG (renderChain first (longhand first fm its)) := by
+  rw [C05_node_graph first fm its hfirst hfm hok,
+    C04_read_chain first (longhand first fm its) hfirst (longhand_ok first fm its hfirst hok)]
+
+/-! ### non-vacuity and documented examples (kernel evaluation) -/
+example : renderChainM "PEO".toList (some "5".toList) [] = "{[#PEO]|5}".toList := by decide +kernel
+example : renderChain "PEO".toList (longhand "PEO".toList (some "5".toList) []) = "{[#PEO][#PEO][#PEO][#PEO][#PEO]}".toList := by
+  decide +kernel
+example : renderChainM "A".toList (some "3".toList) [⟨"B".toList, 2, none⟩] = "{[#A]|3=[#B]}".toList := by decide +kernel
+example : readCG "{[#A]|3=[#B]}".toList = readCG "{[#A][#A][#A]=[#B]}".toList := by decide +kernel
+example : (readCG "{[#PMA]([#PEO][#PEO])|3}".toList).map (·.edges.length) =
+    (readCG "{[#PMA]([#PEO][#PEO])[#PMA]([#PEO][#PEO])[#PMA]([#PEO][#PEO])}".toList).map (·.edges.length) := by decide +kernel
+
+/-! ### open findings, pinned on the faithful model: the shorthand reads differently from the longhand -/
+
+/-- R4: a multiplied node with incoming order ≠ 1 inside a multiplied branch -/
+theorem C05_R4_witness : (readCG "{[#C]=([#C]|2)|3}".toList).map (·.edges.map (·.order)) ≠
+    (readCG "{[#C]=([#C][#C])[#C]=([#C][#C])[#C]=([#C][#C])}".toList).map (·.edges.map (·.order)) := by decide +kernel
+
+/-- R6a: a multiplied anchor with more than one branch -/
+theorem C05_R6a_witness : (readCG "{[#B]([#C])([#A])|2}".toList).map (·.nodes.length) ≠
+    (readCG "{[#B]([#C])([#A])[#B]([#C])([#A])}".toList).map (·.nodes.length) := by decide +kernel
+
+/-- R6b: a nested branch inside a multiplied branch, three copies -/
+theorem C05_R6b_witness : (readCG "{[#A]([#C]([#B]))|3}".toList).map (·.edges.length) ≠
+    (readCG "{[#A]([#C]([#B]))[#A]([#C]([#B]))[#A]([#C]([#B]))}".toList).map (·.edges.length) := by decide +kernel
+
 end CGV.C05
